@@ -7,7 +7,8 @@
    any number of messages in any interleaving and order, duplicates,
    non-concatenated PDUs, malformed segments.  [crun r h] returns, per input,
    the callbacks made during that call (position = timing). *)
-From V Require Import Model.Combiner Spec.CombinerSpec Proofs.CombinerProofs.
+(* Model.CombinerRun: the glue the generated cases evaluate, built with this file *)
+From V Require Import Model.Combiner Model.CombinerRun Spec.CombinerSpec Spec.CombinerSetSpec Proofs.CombinerProofs Proofs.CombinerSetProofs.
 Open Scope N_scope.
 
 (* the combiner returns normally on every history of arbitrary PDUs, from any registry *)
@@ -79,6 +80,16 @@ Theorem C10_step : forall seen r p r1 out, registry_inv seen r -> seq_octet p ->
     (~ last_missing c cur -> out = [])
   end.
 Proof. exact cstep_when. Qed.
+
+(* C10 in one statement, against a specification written without slot arrays
+   (Spec/CombinerSetSpec.v): on every interleaved history, the callbacks made at
+   the arrivals of key k are exactly those of the set-style specification on
+   the sub-history of k — a delivery exactly when the sequence numbers accepted
+   since the last delivery first cover 1..N, holding for each number the most
+   recent accepted segment, in order; nothing otherwise. *)
+Theorem C10_set_spec : forall k h r outs, Forall seq_octet h -> crun [] h = Ok (r, outs) ->
+  outputs_at k h outs = snd (espec_run [] (hist_key k h)).
+Proof. exact combiner_is_set_spec. Qed.
 
 (* the hypothesis [seq_octet] holds of every PDU whose UDH values are octets *)
 Theorem C10_seq_octet : forall p, udh_octets (d_udh p) -> seq_octet p.
